@@ -457,6 +457,7 @@ def tt_cp_apr_pdnr(  # noqa: PLR0912,PLR0913,PLR0915
     # If the initial guess has any rows of all zero elements, then modify so the row
     # subproblem is not taking log(0). Values will be restored to zero later if the
     # unfolded X for the row has no zeros.
+    init = init.copy()  # the caller's initial guess is not modified
     for n in range(N):
         rowsum = np.sum(init.factor_matrices[n], axis=1)
         tmpIdx = np.where(rowsum == 0)[0]
@@ -818,6 +819,7 @@ def tt_cp_apr_pqnr(  # noqa: PLR0912,PLR0913,PLR0915
     # If the initial guess has any rows of all zero elements, then modify so the row
     # subproblem is not taking log(0). Values will be restored to zero later if the
     # unfolded X for the row has no zeros.
+    init = init.copy()  # the caller's initial guess is not modified
     for n in range(N):
         rowsum = np.sum(init.factor_matrices[n], axis=1)
         tmpIdx = np.where(rowsum == 0)[0]
